@@ -41,19 +41,29 @@ void cv_must_failed(void)
 static void layout_lemmas(void)
 {
     __CPROVER_assert(cv_max_size() == MAXSIZE && cv_sizeof_raw() == MAXSIZE, "lemma: maxSize == sizeof(data.raw) == 4096");
-    __CPROVER_assert(cv_sizeof_msghdr() == 56 && cv_sizeof_data() == 16 + MAXSIZE, "lemma: stub socket structs have the platform layout (gen.py checks the same numbers natively)");
+    /* NOTE: CBMC's C++ front end lays classes out WITHOUT alignment padding (it reports sizeof(msghdr) == 48, natively 56;
+     * sizeof(DataBuffer) == 4108, natively 4112): member offsets inside the message object are not the native ones.  The
+     * contracts speak only about positions relative to data.raw and about sizeof(data.raw), which do not depend on padding. */
 }
+
+/* what the RANGE memcpy model saw (stubs.c) */
+extern int cv_mc_calls; extern const void *cv_mc_src[2]; extern void *cv_mc_dst[2]; extern size_t cv_mc_n[2]; extern int cv_mc_int[2];
+extern const char *cv_str_assigned_buf;
+const char *cv_raw_base(void);
+/* "copy k moved n bytes from data.raw[from ..) to p" / "... from p to data.raw[to ..)" */
+#define COPY_OUT(k, from, p, cnt) (cv_mc_src[k] == (const void *)(cv_raw_base() + (from)) && cv_mc_dst[k] == (void *)(p) && cv_mc_n[k] == (size_t)(cnt))
+#define COPY_IN(k, p, to, cnt)    (cv_mc_dst[k] == (void *)(cv_raw_base() + (to)) && cv_mc_src[k] == (const void *)(p) && cv_mc_n[k] == (size_t)(cnt))
 
 /* ------------------------------------------------------------------------------------------------------------------
  * getRaw(rawBuf, rawSize)   requires: rawBuf has rawSize writable bytes; class invariant offset <= data.size.
  * data.size is a RECEIVED field (recvmsg writes it): every value is possible.
- * ensures (or throws): the bytes read are data.raw[offset, offset+rawSize), inside data.raw[0, maxSize) and inside the stored
- * size; they arrive in rawBuf; offset advances by rawSize; nothing else changes.
+ * ensures (or throws): exactly the bytes data.raw[offset, offset+rawSize) are copied to rawBuf; they lie inside
+ * data.raw[0, maxSize) and inside the stored size; offset advances by rawSize; nothing else changes.
  * ------------------------------------------------------------------------------------------------------------------ */
 #if defined(T_GETRAW)
 void h_getraw(void)
 {
-    size_t size0, n; unsigned int off0; char dst[M]; char byte_g; int type0;
+    size_t size0, n; unsigned int off0; char dst[M]; int type0;
     layout_lemmas();
     __CPROVER_assume(off0 <= size0);                 /* class invariant (established by prepForReading/sync, kept by getRaw) */
     __CPROVER_assume(n <= M);                        /* requires: the caller's buffer has rawSize bytes */
@@ -61,17 +71,17 @@ void h_getraw(void)
     __CPROVER_assume(size0 <= MAXSIZE);              /* second target: what holds when the stored size is honest */
 #endif
     cv_set_size(size0); cv_set_offset(off0); cv_set_type(type0);
-    if (g < n && off0 + g < MAXSIZE) cv_set_raw(off0 + g, byte_g);      /* arbitrary content at the ghost position */
     cv_getRaw(dst, n);
     /* returned normally */
 #ifdef TWIN_INSIDE
-    __CPROVER_assert(n == 0 || off0 + n > size0, "ensures: TWIN (negated) read range within the stored size");
+    __CPROVER_assert(n == 0 || (size_t)off0 + n > size0, "ensures: TWIN (negated) read range within the stored size");
 #endif
     __CPROVER_assert(n == 0 || (size_t)off0 + n <= MAXSIZE,
                      "ensures: getRaw returns => the bytes read lie inside data.raw[0,maxSize) -- never beyond the buffer");
     __CPROVER_assert(n == 0 || (size_t)off0 + n <= size0, "ensures: getRaw returns => the bytes read lie inside the stored size (truncated content is an error)");
-    __CPROVER_assert(cv_offset() == off0 + n && cv_size() == size0 && cv_type() == type0, "ensures: getRaw returns => offset advanced by rawSize, size and type unchanged");
-    __CPROVER_assert(!(g < n && off0 + g < MAXSIZE) || dst[g] == byte_g, "ensures: getRaw returns => rawBuf holds data.raw[offset ..) (ghost index)");
+    __CPROVER_assert(n == 0 ? cv_mc_calls == 0 : (cv_mc_calls == 1 && COPY_OUT(0, off0, dst, n)),
+                     "ensures: getRaw returns => exactly data.raw[offset, offset+rawSize) is copied to rawBuf, once");
+    __CPROVER_assert(cv_offset() == (unsigned int)(off0 + n) && cv_size() == size0 && cv_type() == type0, "ensures: getRaw returns => offset advanced by rawSize (as unsigned int), size and type unchanged");
     __CPROVER_assert(cv_offset() <= cv_size(), "ensures: class invariant offset <= data.size re-established");
 #ifdef REACH
     __CPROVER_assert(!(n == 4 && off0 == 0), "reach: a 4-byte read at offset 0 returns");
@@ -83,17 +93,16 @@ void h_getraw(void)
 
 /* ------------------------------------------------------------------------------------------------------------------
  * putRaw(rawBuf, rawSize)   requires: rawBuf has rawSize readable bytes; class invariant data.size <= maxSize (messages
- * being built start from allocData(): size 0).   ensures (or throws): bytes land at the old data.size, data.size grows by
- * rawSize and stays <= maxSize; earlier bytes, offset and type unchanged.
+ * being built start from allocData(): size 0).   ensures (or throws): exactly rawSize bytes are copied to data.raw at the old
+ * data.size; data.size grows by rawSize and stays <= maxSize; offset and type unchanged.
  * ------------------------------------------------------------------------------------------------------------------ */
 #if defined(T_PUTRAW)
 void h_putraw(void)
 {
-    size_t size0, n, h; unsigned int off0; char src[M]; char old_h; int type0;
+    size_t size0, n; unsigned int off0; char src[M]; int type0;
     layout_lemmas();
     __CPROVER_assume(size0 <= MAXSIZE && n <= M);
     cv_set_size(size0); cv_set_offset(off0); cv_set_type(type0);
-    if (h < size0) cv_set_raw(h, old_h);             /* an arbitrary earlier byte */
     cv_putRaw(src, n);
 #ifdef TWIN_SIZE
     __CPROVER_assert(cv_size() != size0 + n, "ensures: TWIN (negated) size grows by rawSize");
@@ -101,8 +110,8 @@ void h_putraw(void)
     __CPROVER_assert(cv_size() == size0 + n, "ensures: putRaw returns => data.size grew by rawSize");
 #endif
     __CPROVER_assert(cv_size() <= MAXSIZE, "ensures: putRaw returns => data.size <= maxSize (nothing written beyond data.raw)");
-    __CPROVER_assert(!(g < n) || cv_raw(size0 + g) == src[g], "ensures: putRaw returns => the bytes landed at the old data.size (ghost index)");
-    __CPROVER_assert(!(h < size0) || cv_raw(h) == old_h, "ensures: putRaw returns => earlier bytes unchanged (ghost index)");
+    __CPROVER_assert(n == 0 ? cv_mc_calls == 0 : (cv_mc_calls == 1 && COPY_IN(0, src, size0, n)),
+                     "ensures: putRaw returns => exactly rawSize bytes are copied to data.raw at the old data.size, once");
     __CPROVER_assert(cv_offset() == off0 && cv_type() == type0, "ensures: putRaw returns => offset and type unchanged");
 #ifdef REACH
     __CPROVER_assert(!(n == 0), "reach: empty put returns");
@@ -112,14 +121,76 @@ void h_putraw(void)
 #endif
 
 /* ------------------------------------------------------------------------------------------------------------------
- * round trips (C58: "serialising and deserialising yields the same"):  putInt(x); getInt() == x;  putPod/getPod<int>;
- * putFixed(b,n); getFixed(c,n) => c == b for n <= 64.  The reader's offset is where the writer started.
+ * getString(s): the length field is RECEIVED content: every int is possible (the RANGE memcpy model hands getInt() an
+ * arbitrary int).  Stored size honest (<= maxSize; the other case is getRaw's finding).
+ * ensures (or throws): length == 0 => s.clean(), nothing else read; else 0 < length <= maxSize, the length bytes that
+ * follow the length field lie inside the stored size and exactly they reach s.assign().
+ * ------------------------------------------------------------------------------------------------------------------ */
+#if defined(T_GETSTRING)
+void h_getstring(void)
+{
+    size_t size0; unsigned int off0; int type0;
+    __CPROVER_assume(off0 <= size0 && size0 <= MAXSIZE);
+    cv_set_size(size0); cv_set_offset(off0); cv_set_type(type0);
+    cv_getString();
+    const int len = cv_mc_int[0];                     /* the length field as received */
+    __CPROVER_assert(cv_mc_calls >= 1 && cv_mc_src[0] == (const void *)(cv_raw_base() + off0) && cv_mc_n[0] == sizeof(int) && (size_t)off0 + sizeof(int) <= size0,
+                     "ensures: getString returns => the length field was read at the old offset, inside the stored size");
+    __CPROVER_assert(len >= 0 && (size_t)len <= MAXSIZE, "ensures: getString returns => 0 <= length <= maxSize");
+    __CPROVER_assert((size_t)off0 + sizeof(int) + (size_t)len <= size0, "ensures: getString returns => length field and content lie inside the stored size");
+#ifdef TWIN_LEN
+    __CPROVER_assert(!(len > 0 && cv_str_assigned == 1 && cv_str_assigned_len == len), "ensures: TWIN (negated) assigned length");
+#else
+    __CPROVER_assert(len == 0 ? (cv_str_assigned == 2 && cv_mc_calls == 1)
+                              : (cv_str_assigned == 1 && cv_str_assigned_len == len && cv_mc_calls == 2 &&
+                                 COPY_OUT(1, off0 + sizeof(int), cv_str_assigned_buf, len)),
+                     "ensures: getString returns => empty string cleaned; otherwise exactly the length bytes after the length field reach assign()");
+#endif
+    __CPROVER_assert(cv_offset() == off0 + sizeof(int) + (unsigned)len && cv_size() == size0, "ensures: getString returns => offset advanced past the string, size unchanged");
+#ifdef REACH
+    __CPROVER_assert(!(len == 0), "reach: empty string returns");
+    __CPROVER_assert(!(len == (int)MAXSIZE - 4 && off0 == 0), "reach: longest storable string returns");
+#endif
+}
+#endif
+
+/* putString(s): s.psize() is any non-negative int.  ensures (or throws): length <= maxSize; the length, then exactly the
+ * string's bytes, are copied to data.raw at the old data.size; data.size grows by 4 + length and stays <= maxSize. */
+#if defined(T_PUTSTRING)
+void h_putstring(void)
+{
+    size_t size0; int type0; unsigned int off0;
+    __CPROVER_assume(size0 <= MAXSIZE);
+    __CPROVER_assume(cv_str_len >= 0);                 /* String invariant (stub) */
+    const int len = cv_str_len;
+    cv_set_size(size0); cv_set_offset(off0); cv_set_type(type0);
+    cv_putString();
+#ifdef TWIN_LEN
+    __CPROVER_assert(cv_size() != size0 + sizeof(int) + (size_t)len, "ensures: TWIN (negated) size after putString");
+#endif
+    __CPROVER_assert((size_t)len <= MAXSIZE && cv_size() == size0 + sizeof(int) + (size_t)len && cv_size() <= MAXSIZE,
+                     "ensures: putString returns => length <= maxSize, size grew by 4 + length, inside the buffer");
+    __CPROVER_assert(cv_mc_calls >= 1 && cv_mc_dst[0] == (void *)(cv_raw_base() + size0) && cv_mc_n[0] == sizeof(int) && cv_mc_int[0] == len,
+                     "ensures: putString returns => the length is stored first, at the old data.size");
+    __CPROVER_assert(len == 0 ? cv_mc_calls == 1 : (cv_mc_calls == 2 && COPY_IN(1, cv_str_buf, size0 + sizeof(int), len)),
+                     "ensures: putString returns => exactly the string's bytes follow the length field");
+    __CPROVER_assert(cv_offset() == off0 && cv_type() == type0, "ensures: putString returns => offset and type unchanged");
+#ifdef REACH
+    __CPROVER_assert(!(len == 0), "reach: empty string stored");
+    __CPROVER_assert(!(len == (int)MAXSIZE - 4), "reach: longest storable string stored");
+#endif
+}
+#endif
+
+/* ------------------------------------------------------------------------------------------------------------------
+ * round trips at FIXED buffer positions with the EXACT memcpy model (bounded: the universal statement is the composition of
+ * the putRaw and getRaw contracts above: put copies the bytes to data.raw[size ..), get copies data.raw[offset ..) out).
+ * putInt(x)/putPod(x) then getInt()/getPod() == x;  putFixed(b,n) then getFixed(c,n) => c == b, n <= 64.
  * ------------------------------------------------------------------------------------------------------------------ */
 #if defined(T_RT_INT)
-void h_rt_int(void)
+static void rt_int_at(size_t size0)
 {
-    size_t size0; int x, type0; _Bool pod;
-    __CPROVER_assume(size0 <= MAXSIZE);
+    int x, type0; _Bool pod;
     cv_set_size(size0); cv_set_offset((unsigned int)size0); cv_set_type(type0);
     int y;
     if (pod) { cv_putPodInt(&x); cv_getPodInt(&y); } else { cv_putInt(x); y = cv_getInt(); }
@@ -130,18 +201,24 @@ void h_rt_int(void)
 #endif
     __CPROVER_assert(cv_size() == size0 + sizeof(int) && cv_offset() == cv_size() && cv_size() <= MAXSIZE, "ensures: both cursors advanced by sizeof(int), inside the buffer");
 #ifdef REACH
-    __CPROVER_assert(!(pod && x == INT_MIN), "reach: POD round trip of INT_MIN returns");
+    __CPROVER_assert(!(pod && x == INT_MIN && size0 == 0), "reach: POD round trip of INT_MIN returns");
     __CPROVER_assert(!(!pod && size0 == MAXSIZE - sizeof(int)), "reach: int round trip in the last 4 bytes returns");
 #endif
+}
+void h_rt_int(void)
+{
+    unsigned sel;
+    if (sel == 0) rt_int_at(0); else if (sel == 1) rt_int_at(1); else if (sel == 2) rt_int_at(2047);
+    else if (sel == 3) rt_int_at(MAXSIZE - sizeof(int)); else rt_int_at(MAXSIZE - sizeof(int) + 1);   /* the last one must throw */
 }
 #endif
 
 #if defined(T_RT_FIXED)
 #define F 64
-void h_rt_fixed(void)
+static void rt_fixed_at(size_t size0)
 {
-    size_t size0, n; char in[F], out[F]; int type0;
-    __CPROVER_assume(size0 <= MAXSIZE && n <= F);
+    size_t n; char in[F], out[F]; int type0;
+    __CPROVER_assume(n <= F);
     cv_set_size(size0); cv_set_offset((unsigned int)size0); cv_set_type(type0);
     cv_putFixed(in, n);
     cv_getFixed(out, n);
@@ -152,73 +229,14 @@ void h_rt_fixed(void)
 #endif
     __CPROVER_assert(cv_size() == size0 + n && cv_offset() == cv_size() && cv_size() <= MAXSIZE, "ensures: both cursors advanced by n, inside the buffer");
 #ifdef REACH
-    __CPROVER_assert(!(n == F), "reach: 64-byte round trip returns");
+    __CPROVER_assert(!(n == F && size0 == 0 && g == F - 1), "reach: 64-byte round trip returns (ghost at the last byte)");
     __CPROVER_assert(!(n == 1 && size0 == MAXSIZE - 1), "reach: 1-byte round trip in the last byte returns");
 #endif
 }
-#endif
-
-/* ------------------------------------------------------------------------------------------------------------------
- * getString(s): the length field is RECEIVED content: every int is possible.  Stored size honest (<= maxSize; the other case
- * is getRaw's finding).  ensures (or throws): length == 0 => s.clean(); else 0 < length <= maxSize, the length bytes lie
- * inside the stored size, and s.assign() gets exactly them.
- * ------------------------------------------------------------------------------------------------------------------ */
-#if defined(T_GETSTRING)
-void h_getstring(void)
+void h_rt_fixed(void)
 {
-    size_t size0; unsigned int off0; int len; int type0; char byte_g;
-    __CPROVER_assume(off0 <= size0 && size0 <= MAXSIZE);
-    cv_set_size(size0); cv_set_offset(off0); cv_set_type(type0);
-    /* the hostile length field, little-endian as this platform stores an int */
-    for (unsigned i = 0; i < sizeof(int); i++)
-        if (off0 + i < MAXSIZE) cv_set_raw(off0 + i, (char)(((unsigned)len >> (8 * i)) & 0xFF));
-    if (len > 0 && g < (size_t)len && off0 + sizeof(int) + g < MAXSIZE) cv_set_raw(off0 + sizeof(int) + g, byte_g);
-    cv_str_assigned = 0;
-    cv_getString();
-    __CPROVER_assert(len >= 0 && (size_t)len <= MAXSIZE, "ensures: getString returns => 0 <= length <= maxSize");
-    __CPROVER_assert((size_t)off0 + sizeof(int) + (size_t)len <= size0, "ensures: getString returns => length field and content lie inside the stored size");
-#ifdef TWIN_LEN
-    __CPROVER_assert(!(len > 0 && cv_str_assigned == 1 && cv_str_assigned_len == len), "ensures: TWIN (negated) assigned length");
-#else
-    __CPROVER_assert(len == 0 ? cv_str_assigned == 2 : (cv_str_assigned == 1 && cv_str_assigned_len == len),
-                     "ensures: getString returns => empty string cleaned, otherwise assign() gets exactly length bytes");
-#endif
-    __CPROVER_assert(!(len > 0 && g < (size_t)len) || cv_str_assigned_g == byte_g, "ensures: getString returns => the assigned bytes are the stored ones (ghost index)");
-    __CPROVER_assert(cv_offset() == off0 + sizeof(int) + (unsigned)len && cv_size() == size0, "ensures: getString returns => offset advanced past the string, size unchanged");
-#ifdef REACH
-    __CPROVER_assert(!(len == 0), "reach: empty string returns");
-    __CPROVER_assert(!(len == (int)MAXSIZE - 4 && off0 == 0), "reach: longest storable string returns");
-#endif
-}
-#endif
-
-/* putString(s) then getString(t): t == s; putString alone: length checked, size grows by 4 + length */
-#if defined(T_RT_STRING)
-void h_rt_string(void)
-{
-    size_t size0; int type0;
-    __CPROVER_assume(size0 <= MAXSIZE);
-    __CPROVER_assume(cv_str_len >= 0);                 /* String invariant (stub) */
-    const int len = cv_str_len;
-    char byte_g = (g < sizeof(cv_str_buf)) ? cv_str_buf[g] : 0;
-    cv_set_size(size0); cv_set_offset((unsigned int)size0); cv_set_type(type0);
-    cv_putString();
-    __CPROVER_assert((size_t)len <= MAXSIZE && cv_size() == size0 + sizeof(int) + (size_t)len && cv_size() <= MAXSIZE,
-                     "ensures: putString returns => length <= maxSize, size grew by 4 + length, inside the buffer");
-    cv_str_assigned = 0;
-    cv_getString();
-#ifdef TWIN_RT
-    __CPROVER_assert(!(len > 0) || cv_str_assigned_len != len, "ensures: TWIN (negated) string round trip");
-#else
-    __CPROVER_assert(len == 0 ? cv_str_assigned == 2 : (cv_str_assigned == 1 && cv_str_assigned_len == len),
-                     "ensures: putString(s) then getString(t) => t has the same length");
-#endif
-    __CPROVER_assert(!(len > 0 && g < (size_t)len) || cv_str_assigned_g == byte_g, "ensures: putString(s) then getString(t) => same bytes (ghost index)");
-    __CPROVER_assert(cv_offset() == cv_size(), "ensures: reader consumed exactly what the writer stored");
-#ifdef REACH
-    __CPROVER_assert(!(len == 0), "reach: empty string round trip returns");
-    __CPROVER_assert(!(len == 100), "reach: 100-byte string round trip returns");
-#endif
+    unsigned sel;
+    if (sel == 0) rt_fixed_at(0); else if (sel == 1) rt_fixed_at(3); else if (sel == 2) rt_fixed_at(MAXSIZE - F); else rt_fixed_at(MAXSIZE - 1);
 }
 #endif
 
